@@ -5,13 +5,13 @@ use std::collections::BTreeSet;
 
 pub const CLS: &[&str] = &[
     "a", "a.b", "a$b", "ab", "a.b.c", "b", "é.x", "a.a", "a.b$c", "z.Y$1", "a.", "aa", "a.b.d", "A", "a.b$", "I", "Lib",
-    "x.Long", "ü", "😀.x", "a\u{2028}b", "e\u{301}",
+    "x.Long", "ü", "😀.x", "a\u{2028}b", "e\u{301}", "\u{ff21}", "\u{1d400}", "\u{e000}q", "\u{10000}q", "\u{ff21}\u{1d400}",
 ];
 pub const ORIG: &[&str] = &[
     "com.A", "com.A$B", "org.x.Foo", "K", "com.é.Ü", "R8$$Synth", "p.q.Outer$Inner$1", "com.example.MainActivity",
-    "kotlin.jvm.internal.Intrinsics",
+    "kotlin.jvm.internal.Intrinsics", "com.example.gen$1.Lambda$Impl", "other.pkg$x.Helper", "a$b.C",
 ];
-pub const METH: &[&str] = &["m", "n", "a", "<init>", "mm", "b", "é", "m$1", "m😀"];
+pub const METH: &[&str] = &["m", "n", "a", "<init>", "mm", "b", "é", "m$1", "m😀", "\u{ff22}", "\u{1d401}"];
 pub const OMETH: &[&str] = &["foo", "bar", "baz", "<init>", "access$100", "lambda$x$0", "onCreate", "é", "f\u{85}g"];
 pub const ARGS: &[&str] = &["", "int", "int,java.lang.String", "android.view.View", "java.lang.Object[]", "a.b"];
 pub const FILES: &[&str] = &["Foo.kt", "R8$$SyntheticClass", "Bar.java", "x", "Ünï.kt", "F😀.kt"];
@@ -40,6 +40,11 @@ fn long_name(r: &mut Rng) -> String {
 fn pick_name(r: &mut Rng, pool: &[&str], dom: Dom) -> String {
     match r.below(40) {
         0 => long_name(r),
+        3 => {
+            // a very long identifier without dots (1 KiB and more)
+            let n = *r.pick(&[511usize, 512, 513, 640, 1023, 1024, 1025, 1500]);
+            "L".repeat(n)
+        }
         1 if dom == Dom::Wild => String::new(),
         2 => {
             // random short identifier (no leading/trailing dot in the representable domain:
